@@ -31,7 +31,21 @@ Perms(n) == {p \in [1..n -> 1..n] : \A a, b \in 1..n : a # b => p[a] # p[b]}
 
 FunR(rs, f(_)) == TLCEval([R \in rs |-> f(R)])
 NoX(rs, nw) == FunR(rs, LAMBDA R : MatZero(nw))
-Sys(nw, cen, rs, H) == [nw |-> nw, cen |-> cen, rs |-> rs, H |-> H, hasX |-> FALSE, X |-> NoX(rs, nw), spinor |-> FALSE]
+(* M: the other named real-space matrices the system carries (System_R._XX_R besides 'Ham' and the second matrix 'AA'):
+   M[name][R][c] is the orbital matrix of the Cartesian component c = 1..3^rank (C order of the Cartesian indices).
+   The ranks are those of wannierberri.system.system.num_cart_dim *)
+NoM == [n \in {} |-> 0]
+RankOf(name) == CASE name \in {"Ham"} -> 0
+                  [] name \in {"AA", "BB", "CC", "SS", "SH", "OO"} -> 1
+                  [] name \in {"SHA", "SA", "SR", "SHR", "GG", "FF"} -> 2
+NComp(name) == CASE RankOf(name) = 0 -> 1 [] RankOf(name) = 1 -> 3 [] OTHER -> 9
+AllNames == <<"BB", "CC", "SS", "SH", "OO", "SHA", "SA", "SR", "SHR", "GG", "FF">>
+NameIdx(name) == CHOOSE j \in 1..Len(AllNames) : AllNames[j] = name
+Sys(nw, cen, rs, H) == [nw |-> nw, cen |-> cen, rs |-> rs, H |-> H, hasX |-> FALSE, X |-> NoX(rs, nw), spinor |-> FALSE, M |-> NoM]
+(* every component of every named matrix transformed on its orbital indices, the Cartesian index untouched *)
+MapM(s, f(_)) == [n \in DOMAIN s.M |-> FunR(s.rs, LAMBDA R : Vec(Len(s.M[n][R]), LAMBDA c : f(s.M[n][R][c])))]
+SameM(s, t, f(_)) == /\ DOMAIN t.M = DOMAIN s.M
+                     /\ \A n \in DOMAIN s.M : \A R \in s.rs : \A c \in 1..Len(s.M[n][R]) : t.M[n][R][c] = f(s.M[n][R][c])
 HermFun(rs, F) == \A R \in rs : VNeg(R) \in rs /\ F[VNeg(R)] = MatDag(F[R])
 HermSys(s) == HermFun(s.rs, s.H)
 Ext(rs, F, n, R) == IF R \in rs THEN F[R] ELSE MatZero(n)            \* a matrix function continued by zero
@@ -74,11 +88,16 @@ Catalogue(nw, CENS, EPSS, RGEN, AMPS, maxhops, EXTRAS) ==
 (* System_R.reorder(new_wann_indices = p) with Rvectors.reorder: matrices, centres and shifts *)
 Reorder(s, p) == [s EXCEPT !.cen = Vec(s.nw, LAMBDA a : s.cen[p[a]]),
                            !.H = FunR(s.rs, LAMBDA R : PermuteMat(s.H[R], p)),
-                           !.X = FunR(s.rs, LAMBDA R : PermuteMat(s.X[R], p))]
+                           !.X = FunR(s.rs, LAMBDA R : PermuteMat(s.X[R], p)),
+                           !.M = MapM(s, LAMBDA A : PermuteMat(A, p))]          \* EVERY matrix of _XX_R
+(* the plausible wrong variant: only a fixed list of names is permuted (the list of check_periodic), the others keep the old order *)
+FixedNames == {"Ham", "AA", "BB", "CC", "SS", "FF"}
+ReorderFixedNames(s, p) == [Reorder(s, p) EXCEPT !.M = [n \in DOMAIN s.M |-> IF n \in FixedNames THEN Reorder(s, p).M[n] ELSE s.M[n]]]
 (* the plausible wrong variant: matrices permuted, centres/shifts left alone *)
 ReorderKeepCentres(s, p) == [Reorder(s, p) EXCEPT !.cen = s.cen]
 (* one k-independent unitary applied to all real-space matrices: X'(R) = U^dagger X(R) U *)
-Rotate(s, U) == [s EXCEPT !.H = FunR(s.rs, LAMBDA R : Conjugate(U, s.H[R])), !.X = FunR(s.rs, LAMBDA R : Conjugate(U, s.X[R]))]
+Rotate(s, U) == [s EXCEPT !.H = FunR(s.rs, LAMBDA R : Conjugate(U, s.H[R])), !.X = FunR(s.rs, LAMBDA R : Conjugate(U, s.X[R])),
+                          !.M = MapM(s, LAMBDA A : Conjugate(U, A))]
 CoCentred(s, U) == \A a, b \in 1..s.nw : U[a][b] # GZ => s.cen[a] = s.cen[b]
 (* the finite group of exact unitaries: permutations with phases in {1, i, -1, -i} *)
 PhasePerms(n) == {[a \in 1..n |-> [b \in 1..n |-> IF b = p[a] THEN IPow(e[a]) ELSE GZ]] : p \in Perms(n), e \in [1..n -> 0..3]}
@@ -88,6 +107,7 @@ ExactUnitaries(s) == {U \in PhasePerms(s.nw) : CoCentred(s, U)}
 ReorderLaws(s, p, t, KS, CS) ==
    /\ HermSys(t)
    /\ t.cen = [a \in 1..s.nw |-> s.cen[p[a]]]
+   /\ SameM(s, t, LAMBDA A : PermuteMat(A, p))                 \* every named matrix: X'(R) = P^T X(R) P, Cartesian indices untouched
    /\ \A k \in KS : LET hs == Hk(s, k)  ht == Hk(t, k) IN
                     /\ ht = PermuteMat(hs, p)
                     /\ CharPoly(ht) = CharPoly(hs)
@@ -96,6 +116,7 @@ ReorderLaws(s, p, t, KS, CS) ==
 RotateLaws(s, U, t, KS, CS) ==
    /\ HermSys(t)
    /\ t.cen = s.cen
+   /\ SameM(s, t, LAMBDA A : Conjugate(U, A))
    /\ \A k \in KS : LET hs == Hk(s, k)  ht == Hk(t, k) IN
                     /\ ht = Conjugate(U, hs)
                     /\ CharPoly(ht) = CharPoly(hs)
@@ -231,7 +252,7 @@ Interpolate(s0, s1, a, den) ==
        H |-> FunR(rs, LAMBDA R : Mix(s0.rs, s0.H, s1.rs, s1.H, s0.nw, a, den, R)),
        hasX |-> both,
        X |-> IF both THEN FunR(rs, LAMBDA R : Mix(s0.rs, s0.X, s1.rs, s1.X, s0.nw, a, den, R)) ELSE NoX(rs, s0.nw),
-       spinor |-> s0.spinor]
+       spinor |-> s0.spinor, M |-> NoM]
 (* wrong variant: only the R-vectors common to both systems are kept *)
 InterpolateIntersect(s0, s1, a, den) ==
    LET full == Interpolate(s0, s1, a, den)  rs == s0.rs \cap s1.rs
